@@ -43,6 +43,8 @@ def gen_path(rng, tag):
     p = "/t%d" % tag
     if segs:
         p += "/" + "/".join(segs)
+    if rng.random() < 0.05:
+        p = rng.choice(["/", "//"]) + p  # empty leading segments: legal in a request target, an "authority" only to a URL parser
     return p.encode("ascii")
 
 
